@@ -140,6 +140,9 @@ pub struct ClientRecord {
     pub parse_error: Option<String>,
     #[serde(default)]
     pub gave_up: bool,
+    /// (request id, virtual time its first byte was written)
+    #[serde(default)]
+    pub sent_start: Vec<(u64, u64)>,
     #[serde(default)]
     pub t_end: u64,
 }
@@ -153,6 +156,7 @@ pub struct H1Client {
     out_pos: usize,
     /// byte offset in `out` where each request ends
     req_ends: VecDeque<(u64, usize)>,
+    req_starts: VecDeque<(u64, usize)>,
     next_req: usize,
     rng: Prng,
     state: u8, // 0 not started, 1 running, 2 lingering, 3 done
@@ -172,6 +176,7 @@ impl H1Client {
             out: Vec::new(),
             out_pos: 0,
             req_ends: VecDeque::new(),
+            req_starts: VecDeque::new(),
             next_req: 0,
             rng,
             state: 0,
@@ -189,6 +194,7 @@ impl H1Client {
         if self.next_req < self.plan.requests.len() {
             let r = &self.plan.requests[self.next_req];
             let bytes = r.render();
+            self.req_starts.push_back((r.id, self.out.len()));
             self.out.extend_from_slice(&bytes);
             self.req_ends.push_back((r.id, self.out.len()));
             self.parser.expect.push_back(r.method.clone());
@@ -302,6 +308,9 @@ impl Actor for H1Client {
                         match wr(self.fd, &self.out[self.out_pos..self.out_pos + q]) {
                             Io::N(n) => {
                                 progressed = true;
+                                while let Some((id, st)) = self.req_starts.front().copied() {
+                                    if st < self.out_pos + n { self.rec.sent_start.push((id, w.now)); self.req_starts.pop_front(); } else { break; }
+                                }
                                 self.out_pos += n;
                                 self.rec.sent_bytes += n;
                                 while let Some((id, end)) = self.req_ends.front().copied() {
